@@ -99,8 +99,8 @@ PROPS = {
     },
     "C08": {
         "thm": "SameVerif.Thm.C08",
-        "suites": ["asmseq", "asmscen", "sigc01"],
-        "spec_filter": r"^spec\.(asm|sig) c08 ",
+        "suites": ["asmseq", "asmscen", "sigc01", "sigseq"],
+        "spec_filter": r"^spec\.(asm c08|sig c08|sig c08seq) ",
         "technique": "Lean 4 invariants over all assembler operation histories (no EndOfMessage is ever left pending; accept never sets a deadline beyond now+hold; a due result is released by the next poll) + differential correspondence of the Assembler incl. private state + per-tick-polled scenario sweeps judged by a delay oracle",
         "level_text": "Proved in Lean over every state and every operation of the assembler model: an EndOfMessage is output by the very call that assembles its establishing burst and is never left pending; every pending result is due no later than its acceptance + MAX_INTERBURST_SYMBOLS (= documented 1.311 s, from the generated constants) and any poll at or after the deadline outputs it and empties the slot, so nothing is held for ever. "
                       "The model is tied to the real Assembler through the hook (outputs and private state after every call) and on thousands of scripted histories with a poll at every idle tick; the oracle checks EOM-at-burst-tick and SOM <= last carrying burst + hold on a quiet channel.",
@@ -111,7 +111,7 @@ PROPS = {
     },
     "C04": {
         "thm": "SameVerif.Thm.C04",
-        "suites": ["asmseq", "asmscen", "sigc01", "signear"],
+        "suites": ["asmseq", "asmscen", "sigc01", "signear", "sigseq"],
         "spec_filter": r"^spec\.(asm c04|sig c04|sig nosom) ",
         "technique": "Lean 4 invariant over all assembler operation histories (every reported message is `combine` of a run of <= 3 consecutive bursts of the log) + theorem that `combine` only reports bytes backed by two agreeing bursts or the bitwise majority of three; correspondence at hook and signal level; evidence oracle on every event trace",
         "level_text": "Proved in Lean: for ALL burst sets, a decoded header has every byte equal (after MSb masking) in two bursts or the bitwise majority of three, needs two bursts covering every reported position, a single burst or a pair disagreeing on the first byte never decodes, an end-of-message estimate begins NN; and over ALL operation histories with non-decreasing ticks the assembler model only ever reports `combine` of a run of at most three consecutive bursts of its burst log (invariant with init/idle/assemble preservation). The models are tied to the real combiner/Assembler through the hook and, in situ, to the real receiver's tapped streams; the evidence oracle (independent of the models) judges the complete event trace of every scenario and every signal case, including a near-miss library (silence, noise, tones, programme, wrong-baud and preamble-less FSK, preamble only, lone bursts, disagreeing bursts, prefixes with 3+ bit errors).",
@@ -144,8 +144,8 @@ PROPS = {
     },
     "C05": {
         "thm": "SameVerif.Thm.C05",
-        "suites": ["asmseq", "asmscen", "sigmask"],
-        "spec_filter": r"^spec\.(asm c05|asm c05w|sig c05one) ",
+        "suites": ["asmseq", "asmscen", "sigmask", "sigseq"],
+        "spec_filter": r"^spec\.(asm c05|asm c05w|sig c05one|sig c05seq) ",
         "technique": "Lean 4 invariants over all assembler operation histories (history bound, duplicate-suppression invariant) lifted to runs: two consecutive reports of the same text are at least MAX_HISTORY_DURATION apart; re-report after the window; kernel-evaluated counterexample for the known duplicate trailer + scenario sweeps with subsequence and window oracles",
         "level_text": "Proved in Lean over every sorted operation list from the initial state: the history never holds more than two bursts and every entry is live and bounded; the duplicate-suppression invariant is preserved by idle and assemble; consequently two consecutive message reports with the same text are at least HIST ticks apart (dedup window, measured from the report, exactly HIST long), and a message whose combine succeeds after the previous entry expired is accepted again (re-report). The at-most-once clause is FALSE today for trailers: eom_twice_counterexample evaluates NNNN@100, NNNN@805, NNNN@1510, X@6215 to two EndOfMessage (known finding F5); eom_once_partial states exactly when a second EOM can occur. Tie and exploration as C02; the oracle checks that the reported sequence is an in-order subsequence of the transmitted one (no duplicates) and both edges of the window.",
         "level_note": "Order preservation across different messages is checked by the subsequence oracle on sweeps, not proved. One open known finding (F5).",
